@@ -67,7 +67,10 @@ func TestC05_Shield(t *testing.T) {
 		phase := time.Duration(rapid.Int64Range(0, int64(time.Second)-1).Draw(t, "phase"))
 		cbh.UseFormatLogger = rapid.IntRange(0, 2).Draw(t, "formattingLogger") == 0
 		cbh.BlockEffects = rapid.IntRange(0, 2).Draw(t, "hangingSideEffects") == 0 // webhooks that never return
+		cbh.Decoy = rapid.IntRange(0, 2).Draw(t, "secondBreakerInProcess") == 0
 		d := cbh.New(t, expr, F, R, P, phase)
+		cbh.Decoy = false
+		d.ImplicitOK = rapid.IntRange(0, 2).Draw(t, "implicit200") == 0
 		cbh.BlockEffects = false
 		cbh.UseFormatLogger = false
 		defer d.Close()
